@@ -3,6 +3,7 @@
 import PS.Proofs.Enum.UFrame
 import PS.Proofs.Enum.UHeaps
 import PS.Proofs.Enum.HeapRoot
+import PS.Proofs.Enum.HeapMap
 import PS.Proofs.Enum.UEmpty
 namespace PS.UHS
 open PS PS.G
@@ -19,7 +20,8 @@ def UAlt (E : Env U π) : Prop :=
 structure OHyp (E : Env U π) (rank : UNT U → Nat) (Good : π → Prop) : Prop where
   ghyp : GHyp E
   acyclic : Acyclic E rank
-  weak : Heapq.WeakOrder E.ops.lt
+  /-- `<` is a strict weak order on the priorities of derivations (bucket tuples of one length) -/
+  weak : Heapq.WeakOrderOn Good E.ops.lt
   thr : E.ops.thr = none
   ualt : UAlt E
   /-- the pairs (symbol, alternative) of a non-terminal are distinct (dict keys) -/
@@ -87,13 +89,14 @@ def LE (E : Env U π) (nt : UNT U) (x y : Prog) : Prop :=
 theorem LE.refl (H : OHyp E rank Good) (nt : UNT U) (x : Prog) : LE E nt x x := by
   intro px py hx hy
   rw [hasPrio_fun H x nt px py hx hy]
-  exact H.weak.irrefl _
+  exact H.weak.irrefl (hasPrio_good H x nt py hy)
 
 theorem LE.trans (H : OHyp E rank Good) {nt : UNT U} {x y z : Prog} (hy : Der E y nt) (h1 : LE E nt x y) (h2 : LE E nt y z) :
     LE E nt x z := by
   intro px pz hx hz
   obtain ⟨py, hpy⟩ := hy
-  exact H.weak.ntrans px py pz (h1 px py hx hpy) (h2 py pz hpy hz)
+  exact H.weak.ntrans (hasPrio_good H _ _ _ hx) (hasPrio_good H _ _ _ hpy) (hasPrio_good H _ _ _ hz)
+    (h1 px py hx hpy) (h2 py pz hpy hz)
 
 /-- a not-better accumulator gives a not-better result -/
 theorem hasPrioList_acc (H : OHyp E rank Good) : ∀ (ks : List Prog) (v : List (UNT U)) (acc acc' pr pr' : π),
